@@ -136,6 +136,28 @@ PROPS["C04"] = arith_entry(
     "non-trivial = some form panics, reports overflow, or the two modes are specified to differ",
     any_flag, modes={"quick": ["debug", "release"], "thorough": ["debug", "release"]})
 
+def bits_entry(rule, nontrivial, **kw):
+    d = {"bin": "bits", "modes": {"quick": ["debug"], "thorough": ["debug", "release"]}, "prims": True,
+         "rule": rule, "nontrivial": nontrivial, "mc": {"quick": [], "thorough": []}}
+    d.update(kw)
+    return d
+
+
+PROPS["C05"] = bits_entry(
+    "one case = (shl|shr|rotate_left|rotate_right, width, signedness, value, amount) with all forms (checked, overflowing, wrapping, strict, unbounded, unchecked, operator, inherent) on every digit type; "
+    "amounts: 0..2W+1 at small widths, elsewhere 0, 1, every sampled multiple of 8/16/32/64 +-1, W-1, W, W+1, 2W+-1, 2^k and 2^k-1 up to 2^31, u32::MAX; values: all-ones, 1, MIN, MAX, boundary and random; "
+    "non-trivial = amount is not a multiple of 8 (bit offset != 0) or amount >= BITS",
+    lambda e: to_int(e["a"][1]) % 8 != 0 or to_int(e["a"][1]) >= e["w"])
+PROPS["C06"] = bits_entry(
+    "one case = (operation, width, signedness, operands) on every digit type; values: boundary set, k whole all-zero/all-one digits (at byte/u16/u32/u64 granularity, leading and trailing) followed by a partial digit with a random run length, "
+    "2^k and 2^k+-1, random; bit indices: all (small widths) or digit boundaries +-1; non-trivial = the pattern has at least one whole extreme byte next to a mixed byte, or two operands",
+    lambda e: len(e["a"]) >= 2 or any(b in (0, 255) for b in e["a"][0].get("v", [])) and any(b not in (0, 255) for b in e["a"][0].get("v", [])))
+PROPS["C07"] = bits_entry(
+    "one case = (cmp_all|clamp|sign, width, signedness, operands): all of == != < <= > >= (operators, trait methods, inherent const methods), cmp, partial_cmp, min, max, clamp, hash coherence, signum/is_positive/is_negative; "
+    "pairs: sign corners, equal on the top k bytes and differing below, single-bit differences in any byte, opposite sign with equal magnitude bits, top digits ordered one way and lower digits the other, zero top digit with non-zero lower digits; "
+    "non-trivial = operands differ and agree on their most significant byte, or are equal",
+    lambda e: len(e["a"]) >= 2 and (e["a"][0]["v"] == e["a"][1]["v"] or e["a"][0]["v"][-1] == e["a"][1]["v"][-1]))
+
 KNOWN_PREDICATES = {}
 
 
